@@ -23,6 +23,12 @@ NAMES := $(patsubst harness/%.cpp,%,$(SRCS))
 all:
 	@$(MAKE) --no-print-directory $$(./check --list-targets)
 
+# Orthogonalization.h (Davidson) guards its preconditions with the C assert macro, which aborts the whole process.
+# These harnesses build the library the way a release build does (-DNDEBUG; Eigen's index assertions stay on through
+# the eigen_assert override in engine/common.h) so that a tripped precondition shows up as its consequence
+# (sanitizer report, exception, wrong result) attributed to one case instead of killing the run.
+$(B)/c12_args.% $(B)/c15_davidson.% $(B)/c04_select.%: COMMON += -DNDEBUG
+
 $(B)/%.plain: harness/%.cpp | $(B)
 	$(CXX) $(COMMON) $(PLAIN) -MF $@.d -o $@ $< $(LIBS)
 
